@@ -5,8 +5,10 @@ package hx
 
 import (
 	"bytes"
+	"encoding/json"
 	"fmt"
 	"sort"
+	"strings"
 	"sync"
 
 	"github.com/hyperjumptech/grule-rule-engine/ast"
@@ -92,6 +94,49 @@ func BuildSplit(p *Program, st grl.Style, reversed bool) (*Built, error) {
 		if err != nil {
 			return nil, fmt.Errorf("build (one resource per rule) failed at %s: %w", r.Name, err)
 		}
+	}
+	return &Built{Lib: lib, Prog: p}, nil
+}
+
+// BuildJSON builds the program from its JSON form (one JSON rule set; conditions and actions as plain strings,
+// name / description / salience as members): the rules reach the builder through the JSON translator.
+func BuildJSON(p *Program, st grl.Style) (*Built, error) {
+	var rs []map[string]interface{}
+	for _, r := range p.Rules {
+		m := map[string]interface{}{"name": r.Name, "when": grl.Print(r.When, st)}
+		if r.Desc != "" {
+			m["desc"] = r.Desc
+		}
+		if r.HasSal {
+			m["salience"] = r.Sal
+		}
+		var then []interface{}
+		for _, a := range r.Then {
+			then = append(then, strings.TrimSuffix(strings.TrimSpace(grl.PrintAction(a, st)), ";"))
+		}
+		m["then"] = then
+		rs = append(rs, m)
+	}
+	js, err := json.Marshal(rs)
+	if err != nil {
+		return nil, err
+	}
+	res, err := pkg.NewJSONResourceFromResource(pkg.NewBytesResource(js))
+	if err != nil {
+		return nil, err
+	}
+	lib := ast.NewKnowledgeLibrary()
+	var berr error
+	func() {
+		defer func() {
+			if rec := recover(); rec != nil {
+				berr = fmt.Errorf("builder panic: %v", rec)
+			}
+		}()
+		berr = builder.NewRuleBuilder(lib).BuildRuleFromResource(KBName, KBVer, res)
+	}()
+	if berr != nil {
+		return nil, fmt.Errorf("build from the JSON form failed: %w\n%s", berr, js)
 	}
 	return &Built{Lib: lib, Prog: p}, nil
 }
